@@ -219,11 +219,14 @@ func VH_C18_LoopVsSetter() {
 		{&PacketData{Seq: 0, IsPing: true}, &PacketACK{Seq: 1}},
 	}
 	sc := scripts[vIntRange("script", 0, 3)]
+	reps := vNativeReps(1, 400)
 	w := &vWire{}
-	for _, m := range sc {
-		b, err := m.Serialize()
-		vAssume(err == nil)
-		w.in = append(w.in, b)
+	for r := 0; r < reps; r++ {
+		for _, m := range sc {
+			b, err := m.Serialize()
+			vAssume(err == nil)
+			w.in = append(w.in, b)
+		}
 	}
 	g := vConn(3, w)
 	// two packets outstanding, so that ACK and NACK do real work
@@ -238,17 +241,19 @@ func VH_C18_LoopVsSetter() {
 	go func() { defer wg.Done(); _ = g.receivePacketsForever() }()
 	go func() {
 		defer wg.Done()
-		switch op {
-		case 0:
-			g.SetSendTimeout(time.Minute)
-		case 1:
-			g.SetRecvTimeout(time.Minute)
-		case 2:
-			g.SetSendTimeout(time.Minute)
-			g.SetRecvTimeout(time.Second)
-		case 3:
-			_ = g.timeoutManager.GetResendTimeout()
-			g.SetRecvTimeout(time.Minute)
+		for r := 0; r < reps; r++ {
+			switch op {
+			case 0:
+				g.SetSendTimeout(time.Minute)
+			case 1:
+				g.SetRecvTimeout(time.Minute)
+			case 2:
+				g.SetSendTimeout(time.Minute)
+				g.SetRecvTimeout(time.Second)
+			case 3:
+				_ = g.timeoutManager.GetResendTimeout()
+				g.SetRecvTimeout(time.Minute)
+			}
 		}
 	}()
 	wg.Wait()
